@@ -35,7 +35,7 @@ func Relate(a, b Geometry) (string, error) {
 			nonEmpty = a
 			flip = true
 		}
-		switch nonEmpty.Dimension() {
+		switch nonEmptyDimension(nonEmpty) {
 		case 0:
 			im.set(imExterior, imInterior, '0')
 			im.set(imExterior, imBoundary, 'F')
@@ -57,6 +57,22 @@ func Relate(a, b Geometry) (string, error) {
 	overlay := newDCELFromGeometries(a, b)
 	im := overlay.extractIntersectionMatrix()
 	return im.code(), nil
+}
+
+// nonEmptyDimension is the dimension of the point set of g: like Dimension,
+// but empty members of GeometryCollections don't contribute to it (they have
+// no points, so they cannot influence how g relates to another geometry).
+func nonEmptyDimension(g Geometry) int {
+	if !g.IsGeometryCollection() {
+		return g.Dimension()
+	}
+	dim := 0
+	g.MustAsGeometryCollection().walk(func(child Geometry) {
+		if !child.IsEmpty() {
+			dim = maxInt(dim, child.Dimension())
+		}
+	})
+	return dim
 }
 
 func relateMatchesAnyPattern(a, b Geometry, patterns ...string) (bool, error) {
@@ -174,8 +190,8 @@ func CoveredBy(a, b Geometry) (bool, error) {
 //
 // 3. The intersection must not equal either of the input geometries.
 func Crosses(a, b Geometry) (bool, error) {
-	dimA := a.Dimension()
-	dimB := b.Dimension()
+	dimA := nonEmptyDimension(a)
+	dimB := nonEmptyDimension(b)
 	switch {
 	case dimA < dimB: // Point/Line, Point/Area, Line/Area
 		return relateMatchesAnyPattern(a, b, "T*T******")
@@ -198,8 +214,8 @@ func Crosses(a, b Geometry) (bool, error) {
 // 3. The intersection of the geometries must have the same dimension as the
 // geometries themselves.
 func Overlaps(a, b Geometry) (bool, error) {
-	dimA := a.Dimension()
-	dimB := b.Dimension()
+	dimA := nonEmptyDimension(a)
+	dimB := nonEmptyDimension(b)
 	switch {
 	case (dimA == 0 && dimB == 0) || (dimA == 2 && dimB == 2):
 		return relateMatchesAnyPattern(a, b, "T*T***T**")
